@@ -9,6 +9,8 @@ import re
 from . import mir as M
 from . import skeleton as S
 from . import gates as G
+from . import slices as SL
+from .absint import Aff as A_Aff
 from .mir import T
 
 # ------------------------------------------------------------------ specification tables (transcribed from Version1-4.md / Common.md)
@@ -125,34 +127,20 @@ class Proto:
             comp = c.args[1] if len(c.args) > 1 else None
             compressed = comp is not None and comp.op == "const" and comp.name in (1, True)
             return ("pk", (tuple(ps), compressed))
-        # nonce
-        if cons and self.P == "Local":
-            if c.op == "field" and c.name == "0" and c.args[0].op == "call" and re.search(r"Key<(\d+)> as core::convert::From<&\[u8\]>>::from$", c.args[0].name):
-                n = int(re.search(r"Key<(\d+)>", c.args[0].name).group(1))
-                idx = c.args[0].args[0]
-                if idx.op == "call" and re.search(r"Index<core::ops::range::RangeTo<usize>>>::index$", idx.name) and is_payload(idx.args[0]):
-                    end = const_int(M.mk_field(idx.args[1], "end"))
-                    return ("nonce", ("prefix", end, n))
-            if c.op == "call" and re.search(r"Index<core::ops::range::RangeTo<usize>>", c.name) and is_payload(c.args[0]):
-                end = const_int(M.mk_field(c.args[1], "end"))
-                return ("nonce", ("prefix", end, end))
-            if c.op == "field" and c.name == "0" and c.args[0].op == "call" and re.search(r"split_at$", c.args[0].name) and is_payload(c.args[0].args[0]):
-                return ("nonce", ("prefix", const_int(c.args[0].args[1]), const_int(c.args[0].args[1])))
-            # body (ciphertext)
-            if c.op == "call" and re.search(r"Index<core::ops::range::Range<usize>>", c.name) and is_payload(c.args[0]):
-                a = const_int(M.mk_field(c.args[1], "start"))
-                end = M.mk_field(c.args[1], "end")
-                b = None
-                if end.op == "binop" and end.name == "Sub" and is_len_of(end.args[0], is_payload):
-                    b = const_int(end.args[1])
-                return ("body", ("mid", a, b))
-        if cons and self.P == "Public":
-            if c.op == "call" and re.search(r"Index<core::ops::range::RangeTo<usize>>", c.name) and is_payload(c.args[0]):
-                end = M.mk_field(c.args[1], "end")
-                s = None
-                if end.op == "binop" and end.name == "Sub" and is_len_of(end.args[0], is_payload):
-                    s = const_int(end.args[1])
-                return ("body", ("head", s))
+        # sub-slices of the decoded payload, whatever idiom cut them (range indexing, split_at, split_at_checked, checked_sub ...)
+        if cons:
+            sl = SL.payload_slice(c)
+            if sl is not None:
+                st, en = sl
+                if self.P == "Local":
+                    if st == A_Aff(0) and en.is_const():
+                        return ("nonce", ("prefix", en.const, en.const))
+                    if st.is_const() and en.terms == {"L": 1}:
+                        return ("body", ("mid", st.const, -en.const))
+                    return ("unknown-slice", SL.fmt(sl))
+                if st == A_Aff(0) and en.terms == {"L": 1}:
+                    return ("body", ("head", -en.const))
+                return ("unknown-slice", SL.fmt(sl))
         if not cons:
             if c.op == "field" and c.name == "key" and c.args[0].op == "param" and c.args[0].name == p.get("nonce"):
                 return ("nonce", "param")
@@ -341,6 +329,7 @@ ALLOWED_REJECT = [
     r"^ecdsa::verifying::VerifyingKey::<C>::from_sec1_bytes$", r"^crypto_common::KeyInit::new_from_slice$", r"^digest::mac::Mac::new_from_slice$",
     r"^ring::hkdf::Prk::expand$", r"^ring::hkdf::Okm::<'., L>::fill$",
     r"^core::num::<impl usize>::checked_(add|sub)$",   # length arithmetic of the minimal-length guard written with checked ops
+    r"^core::slice::<impl \[T\]>::(split_at_checked|get)$",   # length-checked cut of the payload (C01.R9 / C02.R7 check its constant)
 ] + [p for p, _, _ in S.AUTH_PRIMS]
 
 
@@ -628,6 +617,28 @@ def _min_length_guard(out, facts, c):
             ok = max_rejected is not None and max_rejected <= fixed - 1
             _f(out, rl, ok, where, "length guard", "a decoded payload of %d bytes (the empty message) must not be rejected by the length guard; the guard rejects lengths up to %s" % (fixed, max_rejected), sw["ln"], file=v.file(),
                desc="%s.%s: length guard rejects only len < %d" % (V.lower(), P.lower(), fixed))
+    # the same guard written with checked cuts: split_at_checked(m) / checked_sub(c) followed by `?` reject L < offset + m / L < c
+    for v, N, where in views:
+        for bi, t in v.find_calls(r"<impl \[T\]>::split_at_checked$|^core::num::<impl usize>::checked_sub$"):
+            ct = N.norm(v.call_term(t, bi))
+            base = lambda y: is_payload(y) or (y.op == "param" and y.name == 1 and where != c.e.id)
+            lim = None
+            if re.search(r"split_at_checked$", ct.name):
+                sl = SL.payload_slice(ct.args[0], base)
+                m = SL.aff(ct.args[1], base)
+                if sl is not None and m is not None and sl[0].is_const() and m.is_const():
+                    lim = sl[0].const + m.const
+            else:
+                a = SL.aff(ct.args[0], base)
+                k = const_int(ct.args[1])
+                if a is not None and a.terms == {"L": 1} and k is not None:
+                    lim = k - a.const
+            if lim is None:
+                continue
+            found.add((where, bi))
+            ok = lim - 1 <= fixed - 1
+            _f(out, rl, ok, where, "length guard (checked cut)", "a decoded payload of %d bytes (the empty message) must not be rejected; the checked cut rejects lengths below %d" % (fixed, lim), t["ln"], file=v.file(),
+               desc="%s.%s: checked cut rejects only len < %d" % (V.lower(), P.lower(), lim))
     return found
 
 
@@ -647,14 +658,20 @@ def _key_rules(out, facts, protos):
                 if "PasetoSymmetricKey<" in v.local_ty(i):
                     kparam = i
             whole = T("field", "0", (T("field", "key", (T("param", kparam),)),)) if kparam else None
-            sinks = v.find_calls(r"crypto_common::KeyInit::new_from_slice$|ring::hkdf::Salt::extract$|digest::mac::Mac::new_from_slice$")
+            Ni = M.Normalizer(facts, keep=[])
+            sink_terms = []
+            for bi, t in v.calls:
+                ct = Ni.norm(v.call_term(t, bi))
+                for x in ct.walk():
+                    if x.op == "call" and re.search(r"crypto_common::KeyInit::new_from_slice$|ring::hkdf::Salt::extract$|digest::mac::Mac::new_from_slice$", x.meta.get("tdef", "")):
+                        sink_terms.append((x, t["ln"]))
             ok = False
             detail = "no keyed primitive constructor found"
             ln = b["line"]
-            for bi, t in sinks:
-                ct = N.norm(v.call_term(t, bi))
+            seen_k = set()
+            for ct, l2 in sink_terms:
                 karg = ct.args[-1] if re.search(r"extract$", ct.name) else ct.args[0]
-                ln = t["ln"]
+                ln = l2
                 ok = karg == whole
                 detail = "keyed with %s" % M.show(karg)[:120]
                 if not ok:
